@@ -1,4 +1,4 @@
-//@ unit props=C02,C08,C10,C12 tier=quick kind=unbounded timeout=240 funcs="<FrameHeader as BitRepr>::write; <FrameHeader as BitRepr>::count_bits" stubs="BitSink / ByteSink operations -> ideal bit string contracts [C11 Kani units]; encode_to_utf8like / utf8like_bytesize -> the RFC coded number and its byte count [Kani c02_utf8_len1..7, complete]; BlockSizeSpec / SampleRateSpec::{tag, write_extra_bits, count_extra_bits} -> RFC codes [Kani c02_block_size_code_all, c02_sample_rate_code_all, complete]; SampleSizeSpec::into_tag [c02_sample_size_code_all]; ChannelAssignment::write -> its 4-bit code [c02_channel_assignment_write]; HEADER_CRC.checksum -> crc8 [c02_crc8_matches_rfc]" note="`reuse!(HEADER_CRC_BUFFER, |header_buffer| BODY)` is inlined with the scratch sink as an extra &mut parameter holding ARBITRARY contents (also proves independence of the scratch sink's history: C10, and of an earlier failed call: C12); `&v` (heapless::Vec deref) spelled `v.as_slice()`"
+//@ unit props=C02,C08,C10,C12,C18 tier=quick kind=unbounded timeout=240 funcs="<FrameHeader as BitRepr>::write; <FrameHeader as BitRepr>::count_bits" stubs="BitSink / ByteSink operations -> ideal bit string contracts [C11 Kani units]; encode_to_utf8like / utf8like_bytesize -> the RFC coded number and its byte count [Kani c02_utf8_len1..7, complete]; BlockSizeSpec / SampleRateSpec::{tag, write_extra_bits, count_extra_bits} -> RFC codes [Kani c02_block_size_code_all, c02_sample_rate_code_all, complete]; SampleSizeSpec::into_tag [c02_sample_size_code_all]; ChannelAssignment::write -> its 4-bit code [c02_channel_assignment_write]; HEADER_CRC.checksum -> crc8 [c02_crc8_matches_rfc]" note="`reuse!(HEADER_CRC_BUFFER, |header_buffer| BODY)` is inlined with the scratch sink as an extra &mut parameter holding ARBITRARY contents (also proves independence of the scratch sink's history: C10, and of an earlier failed call: C12); `&v` (heapless::Vec deref) spelled `v.as_slice()`"
 // Frame header assembly for EVERY header shape (any coded-number length, any block-size / sample-rate
 // extra field, any channel assignment), against an ABSTRACT fallible caller sink:
 //   C02  header = 1111111111111000|v ++ bs:4 ++ sr:4 ++ channel:4 ++ ss:3 ++ 0 ++ coded number ++
